@@ -539,4 +539,201 @@ theorem showViEq_self_ok (seq : List Int) (hne : seq ≠ []) :
   | nil => exact absurd rfl hne
   | cons a t => simp [ordermax, ordermin, showViEq]
 
+/-! ### the warnings of `paste_paths` and `__iadd__` (which loop gave up) -/
+
+theorem capLen_mono_room (cap : Option Int) (nb n : Nat) (t0 : Int) (rev : List Nat) (hrev : rev.length = nb)
+    (hfit : capLen cap nb = nb) :
+    nb + room ((Path.empty cap t0).withFrames rev) n = capLen cap (nb + n) := by
+  cases cap with
+  | none => simp [room, capLen]
+  | some m =>
+    simp only [capLen] at hfit ⊢
+    simp only [room, withFrames_maxlen, empty_maxlen, withFrames_frames, hrev]
+    omega
+
+theorem pasteWarnings_closed (back forw : Path) (ov : Bool) (ml cap : Option Int)
+    (hcap : pasteMaxlen back.maxlen forw.maxlen ml = .ok cap) :
+    pasteWarnings back forw ov ml =
+      (if ml.isNone && back.maxlen != forw.maxlen then ["uneq:" ++ showOptInt cap] else [])
+      ++ (if capLen cap back.frames.length < back.frames.length
+            then ["tb:" ++ toString (capLen cap back.frames.length)]
+          else if capLen cap (back.frames.length + (forwPart forw ov).length)
+                < back.frames.length + (forwPart forw ov).length
+            then ["tf:" ++ toString (capLen cap (back.frames.length + (forwPart forw ov).length))]
+          else []) := by
+  unfold pasteWarnings
+  rw [hcap]
+  simp only
+  generalize ht : back.timeOrigin - (back.frames.length : Int) + 1 = t0
+  generalize (if ml.isNone && back.maxlen != forw.maxlen then ["uneq:" ++ showOptInt cap] else []) = w0
+  obtain ⟨h1, h2⟩ := appendAll_spec back.frames.reverse (Path.empty cap t0)
+  have hfw : (if ov = true then List.drop 1 forw.frames else forw.frames) = forwPart forw ov := rfl
+  have he : (Path.empty cap t0).frames = [] := rfl
+  rw [hfw]
+  rw [room_empty, he, List.nil_append, List.length_reverse] at h1
+  rw [room_empty, List.length_reverse] at h2
+  have hle := capLen_le cap back.frames.length
+  cases hok : (appendAll (Path.empty cap t0) back.frames.reverse).2 with
+  | false =>
+    have hlt : capLen cap back.frames.length ≠ back.frames.length := by
+      intro hh; rw [← h2] at hh; rw [hh] at hok; exact Bool.noConfusion hok
+    simp only [Bool.not_false, if_true]
+    rw [if_pos (show capLen cap back.frames.length < back.frames.length by omega), h1]
+    simp only [withFrames_frames, List.length_take, List.length_reverse]
+    rw [Nat.min_eq_left hle]
+  | true =>
+    have heq := h2.1 hok
+    simp only [Bool.not_true, Bool.false_eq_true, if_false]
+    rw [if_neg (show ¬ capLen cap back.frames.length < back.frames.length by omega), h1, heq]
+    have hl : List.take back.frames.length back.frames.reverse = back.frames.reverse := by
+      rw [List.take_of_length_le (by simp)]
+    rw [hl]
+    obtain ⟨h3, h4⟩ := appendAll_spec (forwPart forw ov) ((Path.empty cap t0).withFrames back.frames.reverse)
+    have hroom := capLen_mono_room cap back.frames.length (forwPart forw ov).length t0 back.frames.reverse
+      (List.length_reverse) heq
+    have hrl := room_le ((Path.empty cap t0).withFrames back.frames.reverse) (forwPart forw ov).length
+    cases hok2 : (appendAll ((Path.empty cap t0).withFrames back.frames.reverse) (forwPart forw ov)).2 with
+    | false =>
+      have hne : room ((Path.empty cap t0).withFrames back.frames.reverse) (forwPart forw ov).length
+          ≠ (forwPart forw ov).length := by
+        intro hh; rw [← h4] at hh; rw [hh] at hok2; exact Bool.noConfusion hok2
+      simp only [Bool.not_false, if_true]
+      rw [if_pos (show capLen cap (back.frames.length + (forwPart forw ov).length)
+        < back.frames.length + (forwPart forw ov).length by omega), h3]
+      simp only [withFrames_frames, List.length_append, List.length_reverse, List.length_take]
+      rw [Nat.min_eq_left hrl, hroom]
+    | true =>
+      have := h4.1 hok2
+      simp only [Bool.not_true, Bool.false_eq_true, if_false]
+      rw [if_neg (show ¬ capLen cap (back.frames.length + (forwPart forw ov).length)
+        < back.frames.length + (forwPart forw ov).length by omega)]
+      simp
+
+theorem iaddWarnings_closed (self other : Path) :
+    iaddWarnings self other =
+      if room self other.frames.length < other.frames.length
+        then ["ti:" ++ toString (self.frames.length + room self other.frames.length)] else [] := by
+  unfold iaddWarnings
+  obtain ⟨h1, h2⟩ := appendAll_spec other.frames self
+  have hrl := room_le self other.frames.length
+  simp only
+  cases hok : (appendAll self other.frames).2 with
+  | true =>
+    have := h2.1 hok
+    rw [if_neg (show ¬ room self other.frames.length < other.frames.length by omega)]
+    simp
+  | false =>
+    have hne : room self other.frames.length ≠ other.frames.length := by
+      intro hh; rw [← h2] at hh; rw [hh] at hok; exact Bool.noConfusion hok
+    rw [if_pos (show room self other.frames.length < other.frames.length by omega), h1]
+    simp only [withFrames_frames, List.length_append, List.length_take]
+    rw [Nat.min_eq_left hrl]
+    simp
+
+theorem capTake_getElem?_lt {α : Type} (ml : Option Int) (xs : List α) (k : Nat)
+    (hk : k < (capTake ml xs).length) : (capTake ml xs)[k]? = xs[k]? := by
+  cases ml with
+  | none => rfl
+  | some m =>
+    simp only [capTake, List.length_take] at hk ⊢
+    rw [List.getElem?_take, if_pos (by omega)]
+
+theorem mapM_option_map {α β γ : Type} (f : α → β) (g : β → Option γ) : ∀ (xs : List α),
+    (xs.map f).mapM g = xs.mapM (fun x => g (f x)) := by
+  intro xs
+  induction xs with
+  | nil => rfl
+  | cons x xs ih => simp only [List.map_cons, List.mapM_cons, ih]
+
+/-- `order[0]` of a dereferenced frame -/
+def headOrder (o : Option Sys) : Option Int :=
+  match o with
+  | some s => s.v.order.head?
+  | none => none
+
+theorem orderSeq_eq_looks (h : Heap) (p : Path) : orderSeq h p = (p.frames.map h.look).mapM headOrder := by
+  rw [mapM_option_map]
+  rfl
+
+theorem mapM_option_snoc {α β : Type} (f : α → Option β) (xs : List α) (x : α) :
+    (xs ++ [x]).mapM f = (xs.mapM f).bind (fun a => (f x).bind (fun b => some (a ++ [b]))) := by
+  induction xs with
+  | nil => simp only [List.nil_append, List.mapM_cons, List.mapM_nil]; cases f x <;> rfl
+  | cons y ys ih =>
+    simp only [List.cons_append, List.mapM_cons, ih]
+    cases f y with
+    | none => rfl
+    | some c =>
+      cases ys.mapM f with
+      | none => rfl
+      | some a => cases f x <;> rfl
+
+theorem mapM_option_reverse {α β : Type} (f : α → Option β) : ∀ (xs : List α) (ys : List β),
+    xs.mapM f = some ys → xs.reverse.mapM f = some ys.reverse := by
+  intro xs
+  induction xs with
+  | nil => intro ys h; simp at h; subst h; rfl
+  | cons x xs ih =>
+    intro ys h
+    rw [List.mapM_cons] at h
+    cases hx : f x with
+    | none => simp [hx] at h
+    | some b =>
+      cases hxs : xs.mapM f with
+      | none => simp [hx, hxs] at h
+      | some bs =>
+        simp [hx, hxs] at h
+        subst h
+        rw [List.reverse_cons, mapM_option_snoc, ih bs hxs, hx]
+        simp
+
+/-- `order[0]` of the field values of a dereferenced frame -/
+def headOrderV (o : Option Vals) : Option Int :=
+  match o with
+  | some v => v.order.head?
+  | none => none
+
+theorem orderSeq_eq_vals (h : Heap) (p : Path) : orderSeq h p = (vals h p).mapM headOrderV := by
+  unfold vals
+  rw [mapM_option_map]
+  unfold orderSeq
+  congr 1
+  funext r
+  cases h.look r <;> rfl
+
+theorem revVals_order_of_no_recompute (ofn : Option OrderFn) (rv : Bool) (v : Vals)
+    (hno : ∀ f, ofn = some f → (f.velDep && rv) = false) : (revVals ofn rv v).order = v.order := by
+  unfold revVals
+  cases rv with
+  | false => rfl
+  | true =>
+    simp only [if_true]
+    cases ofn with
+    | none => rfl
+    | some f =>
+      have := hno f rfl
+      simp only [Bool.and_true] at this
+      simp [this, flipV]
+
+theorem nodup_eraseDups_aux : ∀ (n : Nat) (l : List Int), l.length ≤ n → l.eraseDups.Nodup := by
+  intro n
+  induction n with
+  | zero =>
+    intro l hl
+    have : l = [] := List.length_eq_zero_iff.1 (by omega)
+    subst this; simp
+  | succ n ih =>
+    intro l hl
+    cases l with
+    | nil => simp
+    | cons a as =>
+      rw [List.eraseDups_cons]
+      refine List.nodup_cons.2 ⟨?_, ih _ ?_⟩
+      · rw [List.mem_eraseDups]; simp
+      · have := List.length_filter_le (fun b => !b == a) as
+        simp only [List.length_cons] at hl
+        omega
+
+theorem nodup_eraseDups_int (l : List Int) : l.eraseDups.Nodup := nodup_eraseDups_aux l.length l (Nat.le_refl _)
+
 end Infretis.PathAlg
